@@ -61,7 +61,7 @@ for pid in sorted(CHECKS):
 m = {"version": 1,
      "setup_cmd": "/venv/bin/python -m vf.setup",
      "hooks": {"guard": "PENDULUM_VERIF", "enable": "no source hooks are needed: checks import pendulum from /repo/src and build rust/ themselves into /verif/.build",
-               "baseline_off_cmd": "cd /repo && /venv/bin/python -m pytest -ra -q -p no:cacheprovider --timeout=900 --continue-on-collection-errors tests",
+               "baseline_off_cmd": "cd /repo && /venv/bin/python -m pytest -ra -q -p no:cacheprovider --timeout=900 --continue-on-collection-errors",
                "source_commits": [], "add_only": True},
      "engines": [{"name": "vf", "path": "vf/runner.py", "serves_properties": [c["property_id"] for c in checks],
                   "kind_free_text": "Hypothesis (incl. RuleBasedStateMachine) + exhaustive enumerators + atheris, 16 worker processes, explicit oracles, JSON replay files"}],
